@@ -2,6 +2,7 @@
 import re
 
 from common import find_aggs, macro_of
+from factlib import trace
 
 MODEL = "async_graphql::model"
 WRAP = {"__InputValue": ("MetaInputValue", "input_value"), "__Field": ("MetaField", "field"), "__EnumValue": ("MetaEnumValue", "value"),
@@ -118,3 +119,67 @@ def run(F, R):
             arms |= set(a)
     R.check({"Object", "Interface", "Union", "InputObject"} <= arms, "R18.5", "traverse_type:composite-arms", tt[0].where() if tt else "-", "arms %s" % sorted(arms),
             "traverse_type lacks arms %s" % sorted({"Object", "Interface", "Union", "InputObject"} - arms))
+
+    R.rule("R18.7", "the visible set is closed under references: names enter `visible_types` only inside traverse_type (which also adds everything the type "
+                    "references); find_visible_types itself never inserts a name directly")
+    ins = []
+    for b in fv:
+        for c in b.calls():
+            if c.callee and re.search(r"hash::set::\{impl#\d+\}::insert$|hash::map::\{impl#\d+\}::insert$", c.callee):
+                o, passed = trace(b, c.args[0])
+                named = b.local_name(c.args[0][1][0]) if c.args[0][0] in ("c", "m") else None
+                ins.append((b, c))
+    outside = [(b, c) for b, c in ins if b.name != "traverse_type" and "traverse_type" not in b.defp]
+    inside = [(b, c) for b, c in ins if b.name == "traverse_type" or "traverse_type" in b.defp]
+    R.check(bool(inside) and not outside, "R18.7", "visible_types:inserted-only-by-traverse_type", fv[0].where() if fv else "-", "%d insert sites, all in traverse_type" % len(inside),
+            "find_visible_types inserts a type name directly (%s): the type is listed but what is reachable only through it (other implementors of an interface, "
+            "their field types) is not, so introspection and the SDL disagree" % [c.where() for b, c in outside][:2])
+
+    R.rule("R18.8", "both directions of the dynamic implements relation are recorded unconditionally: in dynamic Object::register (and Interface::register) the "
+                    "Registry::add_implements call for each declared interface is not control-dependent on the registry's current contents (registration order "
+                    "must not matter)")
+    n8 = 0
+    for b in F.find(r"async_graphql::dynamic::(object|interface)::\{impl#\d+\}::register$", kind="fn"):
+        for c in b.calls_to(r"registry::\{impl#\d+\}::add_implements$"):
+            n8 += 1
+            bad = []
+            for sbb, t in b.switches():
+                if not b.dominates(sbb, c.bb) or t[1][0] not in ("c", "m"):
+                    continue
+                succs = [x for x in b.succ(sbb) if not b.is_unreachable_block(x)]
+                if all(c.bb in b.reachable(x, avoid=[sbb]) or x == c.bb for x in succs):
+                    continue
+                o, passed = trace(b, t[1])
+                lookups = [p for p in passed if p.callee and re.search(r"(map|set)::.*::(get|contains_key|contains|get_mut)$", p.callee)]
+                if any(any(k == "field" and (".types" in x or ".implements" in x) for k, x in trace(b, p.args[0])[0]) for p in lookups if p.args):
+                    bad.append(sbb)
+            key = re.sub(r"\{impl#\d+\}", "{impl}", b.defp.replace("async_graphql::dynamic::", ""))
+            R.check(not bad, "R18.8", "add_implements-unconditional:" + key, c.where(), "not guarded by a registry lookup",
+                    "add_implements is only called when the interface is already in the registry: an object registered before its interface never records the relation, so "
+                    "__Type.interfaces and the SDL omit it while possibleTypes lists it")
+    R.floor("R18.8", "add_implements sites in dynamic registration", n8, 1)
+
+    R.rule("R18.9", "interfaces implementing interfaces are introspectable: __Type.interfaces produces a list for the Object and the Interface kind (the two kinds "
+                    "whose `implements` the SDL exporter writes), and every dynamic type kind that can declare `implements` records it with add_implements")
+    from common import enum_arm_regions
+    its = [b for b in F.bodies.values() if re.search(r"^async_graphql::model::(r#)?type::\{impl#\d+\}::interfaces\b", b.defp) and b.enum_switches(r"registry::MetaType$")]
+    R.floor("R18.9", "__Type::interfaces body", len(its), 1)
+    for b in its[:1]:
+        kinds = set()
+        somes = [a[0] for a in find_aggs(b, r"core::option::Option$") if a[1][3] == "Some"]
+        for (sbb, place, adt, arms, other, vmap) in b.enum_switches(r"registry::MetaType$"):
+            rest = b.reachable(other, avoid=[sbb]) if other is not None else set()
+            for v, tgt in arms.items():
+                if tgt is None:
+                    continue
+                region = b.reachable(tgt, avoid=[sbb]) - rest
+                if any(x in region for x in somes):
+                    kinds.add(v)
+        R.check({"Object", "Interface"} <= kinds, "R18.9", "__Type.interfaces:kinds", b.where(), "lists interfaces for %s" % sorted(kinds),
+                "__Type.interfaces produces a list only for %s: an interface that implements another interface reports `interfaces: null` while the SDL shows "
+                "`interface X implements Y`" % sorted(kinds))
+    for kind in ("object", "interface"):
+        regs_ = F.find(r"async_graphql::dynamic::%s::\{impl#\d+\}::register$" % kind, kind="fn")
+        ok = bool(regs_) and all(b.calls_to(r"registry::\{impl#\d+\}::add_implements$") for b in regs_)
+        R.check(ok, "R18.9", "dynamic-%s:records-implements" % kind, regs_[0].where() if regs_ else "-", "register calls add_implements",
+                "dynamic %s::register never records the declared `implements`: the type is exported and introspected without its interfaces" % kind.capitalize())
